@@ -23,15 +23,15 @@ const (
 
 // Obligation is one instance of a rule.
 type Obligation struct {
-	Rule      string `json:"rule"`
-	Key       string `json:"key"` // rule | function | construct (no positions)
-	Pos       string `json:"pos"`
-	Status    Status `json:"status"`
-	Fact      string `json:"fact"`           // discharging fact, or what is wrong
-	Trivial   bool   `json:"trivial,omitempty"` // discharged without any non-trivial fact
-	Config    string `json:"config,omitempty"`
-	posSort   [3]int
-	fileSort  string
+	Rule     string `json:"rule"`
+	Key      string `json:"key"` // rule | function | construct (no positions)
+	Pos      string `json:"pos"`
+	Status   Status `json:"status"`
+	Fact     string `json:"fact"`              // discharging fact, or what is wrong
+	Trivial  bool   `json:"trivial,omitempty"` // discharged without any non-trivial fact
+	Config   string `json:"config,omitempty"`
+	posSort  [3]int
+	fileSort string
 }
 
 // Rule is a rule template; Run enumerates its instances on a Program.
@@ -131,18 +131,18 @@ func loadFindings(path string) ([]Finding, error) {
 // ---- running ----
 
 type RunResult struct {
-	Prop        string
-	Tier        string
-	Obs         []*Obligation
-	Errs        []string
-	Rules       []*Rule
-	Counts      map[string]int // per rule instance count
-	Configs     []string
-	Funcs       int
-	Packages    int
-	Fixtures    []string
-	MutantsRun  []string
-	Wall        float64
+	Prop       string
+	Tier       string
+	Obs        []*Obligation
+	Errs       []string
+	Rules      []*Rule
+	Counts     map[string]int // per rule instance count
+	Configs    []string
+	Funcs      int
+	Packages   int
+	Fixtures   []string
+	MutantsRun []string
+	Wall       float64
 }
 
 func sortObs(obs []*Obligation) {
